@@ -741,22 +741,24 @@ impl Number {
 
         let max_err = accuracy as f64 * value;
 
-        let whole = value.trunc() as u32;
-        let decimal = value.fract();
-
-        if whole > max_whole || whole == u32::MAX {
+        // compare as floats: the cast to u32 saturates, which can't tell
+        // u32::MAX apart from anything bigger
+        if value.trunc() > max_whole as f64 {
             return None;
         }
+
+        let whole = value.trunc() as u32;
+        let decimal = value.fract();
 
         if decimal < 1e-10 {
             return Some(Self::Regular(value));
         }
 
-        let rounded = value.round() as u32;
-        let round_err = value - value.round();
-        if round_err.abs() < max_err && rounded > 0 && rounded <= max_whole {
+        let rounded = value.round();
+        let round_err = value - rounded;
+        if round_err.abs() < max_err && rounded > 0.0 && rounded <= max_whole as f64 {
             return Some(Self::Fraction {
-                whole: rounded,
+                whole: rounded as u32,
                 num: 0,
                 den: 1,
                 err: round_err,
